@@ -809,7 +809,7 @@ func giHistory(env *zygo.Zlisp, c *giCase) {
 			default:
 				c.Res = append(c.Res, []any{o.Kind, trunc(o.Err, 200)})
 			}
-		case "self":
+		case "self", "echo":
 			switch o.Kind {
 			case "val":
 				arr, isA := o.Val.(*zygo.SexpArray)
@@ -1594,6 +1594,9 @@ func (gg *giGen) addHist(g *giGraph, steps []giStep, note string) {
 		case "self":
 			c.Steps = append(c.Steps, []any{"self"})
 			c.Stext = append(c.Stext, "(_method "+root+" Self:)\n")
+		case "echo":
+			c.Steps = append(c.Steps, []any{"echo"})
+			c.Stext = append(c.Stext, "(def zvh (zvhost))\n(_method zvh "+giEchoOf(g.Nodes[g.Root-1].Tn)+": "+root+")\n")
 		default:
 			c.Steps = append(c.Steps, []any{"set", st.node, st.key, st.v.tagged()})
 			c.Stext = append(c.Stext, fmt.Sprintf("(hset n%d%s %s: %s)\n", st.node, sfx, st.key, st.v.text(sfx)))
@@ -1603,7 +1606,7 @@ func (gg *giGen) addHist(g *giGraph, steps []giStep, note string) {
 }
 
 type giStep struct {
-	op   string // togo | self | set
+	op   string // togo | self | echo | set
 	node int
 	key  string
 	v    giVal
@@ -1645,7 +1648,7 @@ func (b *giGb) good(t reflect.Type, alt int) giVal {
 // histories: a conversion that fails, further conversions of the same object, the repair of the
 // field, and conversions again -- through (togo r) and with the record as receiver of a Go method
 func (gg *giGen) histories() {
-	T, S := giStep{op: "togo"}, giStep{op: "self"}
+	T, S, E := giStep{op: "togo"}, giStep{op: "self"}, giStep{op: "echo"}
 	for _, reg := range []string{"zvleaf", "zvodd", "zvbox", "zvnode", "zvpair", "zvtower", "zvcrew"} {
 		flat := giFlatten(giTypeOfReg(reg))
 		var plain []giFlat
@@ -1693,6 +1696,32 @@ func (gg *giGen) histories() {
 			root := b.rec(reg, giFld(f.key, b.good(f.typ, 0)))
 			upd := giStep{op: "set", node: int(root.N), key: f.key, v: b.good(f.typ, 1)}
 			gg.addHist(b.graph(root), []giStep{T, upd, T}, "convert, update "+reg+"."+f.name+", convert again")
+			// ... and a method call instead: the record as receiver, as argument; first conversion by togo or by the call
+			mk := func(steps func(upd giStep) []giStep, bad bool, note string) {
+				b := newGiGb()
+				o := plain[(fi+1)%len(plain)]
+				fs := []giField{giFld(f.key, b.good(f.typ, 0))}
+				if o.key != f.key {
+					fs = append(fs, giFld(o.key, b.good(o.typ, 1)))
+				}
+				root := b.rec(reg, fs...)
+				v := b.good(f.typ, 1)
+				if bad {
+					w := b.wrong(f.typ)[0]()
+					if w.K == "ref" {
+						return
+					}
+					v = w
+				}
+				gg.addHist(b.graph(root), steps(giStep{op: "set", node: int(root.N), key: f.key, v: v}), note+" "+reg+"."+f.name)
+			}
+			mk(func(u giStep) []giStep { return []giStep{T, u, S, T, S} }, false, "convert, write, call method on it:")
+			mk(func(u giStep) []giStep { return []giStep{S, u, S, S} }, false, "call method, write, call method:")
+			mk(func(u giStep) []giStep { return []giStep{T, u, E, S} }, false, "convert, write, pass as argument:")
+			mk(func(u giStep) []giStep { return []giStep{E, u, E} }, false, "pass as argument, write, pass again:")
+			if fi < 2 {
+				mk(func(u giStep) []giStep { return []giStep{T, u, S, E} }, true, "convert, write a wrong-kind value, call method:")
+			}
 		}
 	}
 	// the bad field one level down
@@ -1717,6 +1746,12 @@ func (gg *giGen) histories() {
 			}
 			gg.addHist(b.graph(root), steps, "fail below "+n.root+"."+n.key+", repair, convert again")
 		}
+		// a write to the record below after a successful conversion
+		b := newGiGb()
+		child := b.rec(n.child, giFld(n.ckey, b.good(cf.typ, 0)))
+		root := b.rec(n.root, giFld(n.key, child))
+		upd := giStep{op: "set", node: int(child.N), key: n.ckey, v: b.good(cf.typ, 1)}
+		gg.addHist(b.graph(root), []giStep{T, upd, S, E, T, S}, "convert, write below "+n.root+"."+n.key+", call method")
 	}
 }
 
